@@ -99,11 +99,19 @@ func judgeModel(fn int, s string) string {
 
 // runShell feeds the escaped words to a real shell and returns what the program saw.
 func runShell(shell string, fn int, inputs []string) ([][]string, error) {
+	words := make([]string, len(inputs))
+	for i, s := range inputs {
+		words[i] = escape(fn, s)
+	}
+	return runShellWords(shell, words)
+}
+
+func runShellWords(shell string, words []string) ([][]string, error) {
 	var script bytes.Buffer
 	script.WriteString("p() { printf '%d\\0' \"$#\"; for a in \"$@\"; do printf '%s\\0' \"$a\"; done; }\n")
-	for _, s := range inputs {
+	for _, w := range words {
 		script.WriteString("p ")
-		script.WriteString(escape(fn, s))
+		script.WriteString(w)
 		script.WriteString("\n")
 	}
 	dir, err := os.MkdirTemp("", "c16")
@@ -120,7 +128,14 @@ func runShell(shell string, fn int, inputs []string) ([][]string, error) {
 	cmd.Stdin = &script
 	var out bytes.Buffer
 	cmd.Stdout = &out
-	cmd.Run() // a syntax error shows up as truncated output
+	// a syntax error shows up as truncated output and a non-zero exit status; a shell that
+	// cannot be started, or that is killed, is a failure of the environment and not of the word
+	if err := cmd.Run(); err != nil {
+		ee, isExit := err.(*exec.ExitError)
+		if !isExit || !ee.Exited() {
+			return nil, fmt.Errorf("%s did not run to its end: %v", shell, err)
+		}
+	}
 	fields := bytes.Split(out.Bytes(), []byte{0})
 	var res [][]string
 	for i := 0; i < len(fields)-1; {
@@ -179,6 +194,13 @@ func main() {
 	}
 	fmt.Printf("model: %d strings judged (%d containing a special character)\n", evals, special)
 	// ---- real shells
+	for _, sh := range []string{"dash", "bash"} {
+		// the shells must be there and understand the harness itself
+		res, err := runShellWords(sh, []string{"'a b'", "''"})
+		if err != nil || len(res) != 2 || len(res[0]) != 1 || res[0][0] != "a b" || len(res[1]) != 1 || res[1][0] != "" {
+			vcommon.Infra("%s is not usable in this environment: %v %q", sh, err, res)
+		}
+	}
 	var inputs []string
 	enumerate(shellLen, func(s string) { inputs = append(inputs, s) })
 	shellEvals := 0
@@ -224,7 +246,7 @@ func main() {
 			"evaluations": evals + shellEvals, "distinct_nontrivial": special,
 			"rule":       fmt.Sprintf("every string of length <= %d over the 15-symbol alphabet {' \" \\ $ ` space newline ; & | * ~ ! # a} plus every single byte 1..255 (alone, after ~/, and between letters), for both functions, through the POSIX word-splitting model; length <= %d through real dash and bash (one word equal to the input, or $HOME/rest for ExceptTilde on ~/ inputs); non-trivial = strings containing at least one special character", modelLen, shellLen),
 			"exhaustive": true, "model_evaluations": evals, "shell_evaluations": shellEvals, "shells": []string{"dash", "bash"},
-			"samples":    []any{"'\"'\"'", "~/a b", "$`\\\n;", "a'\n#"},
+			"samples": []any{"'\"'\"'", "~/a b", "$`\\\n;", "a'\n#"},
 		},
 		Assumptions: []string{"the shells run non-interactively with HOME=" + home + ", PATH=/nonexistent, LC_ALL=C in an empty directory", "strings contain no NUL (as in the statement)"}})
 	os.Exit(code)
